@@ -206,7 +206,7 @@ def _(e, c, a):
     return e.default_value(generic_args(c) or '')
 
 
-@model(r'Option::iter$|Option::iter_mut$|<(std::option::)?Option<.*> as IntoIterator>::into_iter$|<&(mut )?(std::option::)?Option<.*> as IntoIterator>::into_iter$')
+@model(r'Option::iter$|Option::iter_mut$|^<(std::option::)?Option<.*> as IntoIterator>::into_iter$|^<&(mut )?(std::option::)?Option<.*> as IntoIterator>::into_iter$')
 def _(e, c, a):
     byref = isinstance(a[0], Ref)
     o = opt(a[0])
@@ -435,11 +435,18 @@ def _(e, c, a):
     e.drop_value(a[0]); return mk_unit()
 
 
+@model(r'^<(Box|Vec|String|Arc|Rc)(<.*>)? as Drop>::drop$')
+def _(e, c, a):
+    # explicit drop glue call for a std owner (e.g. partially moved Box): run the Drop impls of crate types inside
+    v = un(a[0])
+    e.drop_value(v); return mk_unit()
+
+
 @model(r'^std::forget$')
 def _(e, c, a): return mk_unit()
 
 
-@model(r'^std::must_use$|^must_use$|^std::black_box$|^std::identity$')
+@model(r'^std::must_use$|^must_use$|^std::black_box$|^std::identity$|^identity$|convert::identity$')
 def _(e, c, a): return a[0]
 
 
